@@ -300,6 +300,26 @@ def run(ctx):
         if back != t:
             ctx.violation('chunk section position %r: expected %s decoding to itself' % (t, want.hex()),
                           {'xyz': t, 'impl': got, 'decoded': back}, key={'secpos': list(t)})
+    # out-of-range section positions (Props/C04Wrap.section_wraps): recorded, never judged
+    wsecs = [t for t in itertools.product([2 ** 21, -2 ** 21 - 1, 2 ** 22 + 3, -2 ** 50, 4],
+                                          [2 ** 19, -2 ** 19 - 1, 2 ** 20 + 7, 2],
+                                          [2 ** 21, -2 ** 21 - 1, 2 ** 40, 6])
+             if not (-2 ** 21 <= t[0] < 2 ** 21 and -2 ** 19 <= t[1] < 2 ** 19 and -2 ** 21 <= t[2] < 2 ** 21)]
+    wsecs += [(rng.randrange(-2 ** 66, 2 ** 66), rng.randrange(-2 ** 30, 2 ** 30), rng.randrange(-2 ** 66, 2 ** 66))
+              for _ in range(ctx.scale(60, 600))]
+    outs = ctx.driver.ask(['secpos.enc %d %d %d' % t for t in wsecs])
+    for t, mo in zip(wsecs, outs):
+        s = Sink()
+        try:
+            CSP.send(CSP(*t), s)
+            got = 'ok ' + hx(s.b)
+            p = CSP.read(io.BytesIO(bytes(s.b)))
+            back = (p.x, p.y, p.z)
+        except Exception as e:
+            got, back = 'err:' + ename(e), None
+        ctx.count('secpos.wild.' + got.split()[0])
+        if got != mo or back != (wrapk(t[0], 22), wrapk(t[1], 20), wrapk(t[2], 22)):
+            ctx.count('secpos.wild.differs-from-model(recorded, not judged)')
     swords = words[:80]
     outs = ctx.driver.ask(['secpos.dec %s' % hx(w) for w in swords])
     for w, mo in zip(swords, outs):
